@@ -94,9 +94,9 @@ PROPS = {
     "C04": {
         "lean_modules": ["WP.Props.C04"],
         "lean_support": ["WP.Model.Access"],
-        "families": [("posauth", 20000, 200000), ("xadm", 8000, 400000), ("hist", 12000, 300000)],
+        "families": [("posauth", 20000, 200000), ("xadm", 8000, 400000), ("xini", 8000, 400000), ("xinitaf", 6000, 300000), ("xbun", 6000, 300000), ("hist", 12000, 300000)],
         "history": True,
-        "rule": "xadm: 19 settings instructions (fee / protocol fee rates of pools, fee tiers and adaptive fee tiers, every set-authority instruction, adaptive-fee constants, config feature flag, config-extension and token-badge settings) executed through the program's REAL entrypoint on a world of two configs with different authorities: everything right / authority not signing / a stranger signing / the other config's authority with this config's target account or another role's authority / value out of bounds / target account of the other config; the op line carries the environment read from the real accounts, the Lean model answers with `accepts` on the REGENERATED account table (acceptsB_iff) and the setter's bound, so the translated tables and the semantics given to Signer / address / has_one / constraint are compared with Anchor's generated validation; oracle: only the all-right variant may succeed and then only the target account changes; hist (ops xliq, xsub): the REAL liquidity instructions through the program's entrypoint with the position owner signing / a stranger signing / the owner not signing, and every account slot of swap_v2 and increase_liquidity_v2 (incl. the signer) replaced by a look-alike: unauthorized variants must be refused and change nothing; posauth: every combination of (owner, delegate present/absent/which, delegated amount 0/1/2/5, token amount, authority key, signer flag) "
+        "rule": "xini / xinitaf / xbun: every initialiser (config: admin key; fee tiers, adaptive fee tiers, config extension: fee authority; token badges: the token-badge authority of this config's extension; rewards: reward authority; adaptive-fee pools: the tier's initialize-pool authority) and every position-bundle instruction through the REAL entrypoint with the required authority signing / a stranger signing in its slot / the key passed without signing (bundles also: a one-token delegate): only the first may succeed (oracle), results compared with the Lean models by code name; xadm: 19 settings instructions (fee / protocol fee rates of pools, fee tiers and adaptive fee tiers, every set-authority instruction, adaptive-fee constants, config feature flag, config-extension and token-badge settings) executed through the program's REAL entrypoint on a world of two configs with different authorities: everything right / authority not signing / a stranger signing / the other config's authority with this config's target account or another role's authority / value out of bounds / target account of the other config; the op line carries the environment read from the real accounts, the Lean model answers with `accepts` on the REGENERATED account table (acceptsB_iff) and the setter's bound, so the translated tables and the semantics given to Signer / address / has_one / constraint are compared with Anchor's generated validation; oracle: only the all-right variant may succeed and then only the target account changes; hist (ops xliq, xsub): the REAL liquidity instructions through the program's entrypoint with the position owner signing / a stranger signing / the owner not signing, and every account slot of swap_v2 and increase_liquidity_v2 (incl. the signer) replaced by a look-alike: unauthorized variants must be refused and change nothing; posauth: every combination of (owner, delegate present/absent/which, delegated amount 0/1/2/5, token amount, authority key, signer flag) "
                 "on real spl-token account bytes through verify_position_authority, verify_position_authority_interface and pino_verify_position_authority "
                 "(the space has 1920 points; sampled with replacement far beyond that); non-trivial = an accepted combination; "
                 "the instruction tables (63 accounts structs, 6 Pinocchio prologues, handler guards, routing table, #[program] list) are regenerated and checked against the requirement tables by `decide`",
